@@ -2,6 +2,7 @@ package mc
 
 import (
 	"fmt"
+	"runtime"
 	"time"
 )
 
@@ -13,9 +14,25 @@ import (
 
 type SchedThread struct {
 	id     int
+	gid    uintptr // goroutine identity, so that scheduling points reached by OTHER goroutines are ignored
 	resume chan struct{}
 	Done   bool
 	Result string
+}
+
+// curGID parses the current goroutine's id from its stack header. A goroutine the
+// code under test starts by itself (a parallelised loop, say) also runs through
+// instrumented statements; it is not one of the explorer's threads and must run
+// free instead of confusing the hand-off protocol.
+func curGID() uint64 {
+	var buf [40]byte
+	n := runtime.Stack(buf[:], false)
+	// "goroutine 123 [running]:"
+	var id uint64
+	for i := len("goroutine "); i < n && buf[i] >= '0' && buf[i] <= '9'; i++ {
+		id = id*10 + uint64(buf[i]-'0')
+	}
+	return id
 }
 
 type schedEvent struct {
@@ -64,7 +81,10 @@ func RunSchedule(bodies []func() string, prefix []int, setHook func(func(int)), 
 		t := &SchedThread{id: i, resume: make(chan struct{})}
 		body := b
 		e.Threads = append(e.Threads, t)
+		started := make(chan struct{})
 		go func() {
+			t.gid = goroutineIdentity()
+			close(started)
 			<-t.resume
 			func() {
 				defer func() {
@@ -76,9 +96,13 @@ func RunSchedule(bodies []func() string, prefix []int, setHook func(func(int)), 
 			}()
 			events <- schedEvent{t: t, done: true}
 		}()
+		<-started
 	}
 	setHook(func(site int) {
 		t := cur
+		if t == nil || goroutineIdentity() != t.gid {
+			return // a goroutine that is not the running explorer thread: free running
+		}
 		events <- schedEvent{t: t, site: site}
 		<-t.resume
 	})
